@@ -7,7 +7,7 @@ package file_test
 // TestVerifReplayC19 (all back ends) is the replay test of the C19 contracts.
 // TestVerifBoundedC19File is the BOUNDED stand-in for the file back end, which
 // is not under contract (the engine has no specification of the os file-system
-// calls): 150 seeds x 80 operations over 5 ids x 4 message types. It runs on
+// calls): 150 seeds x 80 operations over 8 ids (prefixes of one another, case variants) x 4 message types. It runs on
 // every check and is never counted as proved.
 
 import (
@@ -31,7 +31,7 @@ type c19Key struct {
 	id   string
 }
 
-var c19Ids = []string{"a", "ab", "abc", "b", "current"}
+var c19Ids = []string{"a", "ab", "abc", "b", "current", "Worker", "worker", "W"} // prefixes of one another and case variants
 
 func c19Msg(kind int, id string, payload []byte) nodeenrollment.MessageWithId {
 	switch kind {
